@@ -419,10 +419,13 @@ HTPsync(filerec_t *file_rec /* IN:  File record to store info in */
     int        ret_value = SUCCEED;
 
     HEclear();
-    block = file_rec->ddhead;
-    if (block == NULL) /* check for DD list */
+    if (file_rec->ddhead == NULL) /* check for DD list */
         HGOTO_ERROR(DFE_BADDDLIST, FAIL);
 
+    /* Flush from the last block back to the first: a newly added block must be on disk
+       before the block that links to it is, so that an interrupted flush never leaves
+       a block chain pointing at space that was not written yet */
+    block = file_rec->ddlast;
     while (block != NULL) {         /* check all the blocks for flushing */
         if (block->dirty == TRUE) { /* flush this block? */
             if (HPseek(file_rec, block->myoffset) == FAIL)
@@ -457,7 +460,7 @@ HTPsync(filerec_t *file_rec /* IN:  File record to store info in */
 
             block->dirty = FALSE; /* block has been flushed */
         }                         /* end if */
-        block = block->next;      /* advance to next block for file */
+        block = block->prev;      /* move to the previous block of the file */
     }                             /* end while */
 
 done:
